@@ -109,7 +109,8 @@ class Observer:
             exp = {"port_r_data": letter[ii["r_data"]], "r_stb_out": r_stb}
             ns = s
         elif a == "W":
-            exp = {"port_r_data": 0, "w_data_out": w_data, "w_stb_out": w_stb}
+            # (what a write-only field presents on port.r_data is not constrained by the property)
+            exp = {"w_data_out": w_data, "w_stb_out": w_stb}
             ns = s
         elif a.startswith("Res"):
             exp = {"port_r_data": 0}
